@@ -28,6 +28,9 @@ _S = {}
 SINGLE = ["FDD", "EFDD", "FSDD", "SSIdat", "SSIcov", "pLSCF"]
 MULTI = ["FDD_MS", "EFDD_MS", "SSIdat_MS", "SSIcov_MS", "pLSCF_MS"]
 PERMISSIVE = dict(conj=False, xi_max=1.0, mpc_lim=0.0, mpd_lim=2.0, cov_max=10.0)
+TIGHT = dict(conj=True, xi_max=0.05, mpc_lim=0.8, mpd_lim=0.2, cov_max=0.1)
+SC_LOOSE = dict(err_fn=0.05, err_xi=0.2, err_phi=0.1)
+SC_STRICT = dict(err_fn=0.002, err_xi=0.01, err_phi=0.005)
 
 
 # ---------------------------------------------------------------------------------------------
@@ -109,6 +112,10 @@ def gen_params(rng, cls, ndat_min, nch_min):
         p = {"br": rng.randint(2, 8), "ordmax": rng.choice([4, 6, 8, 10, 12]), "ordmin": rng.choice([0, 0, 0, 2]), "step": 1}
         if permissive:
             p["hc"] = dict(PERMISSIVE)
+        elif rng.random() < 0.4:
+            p["hc"] = dict(TIGHT)  # explicit and different from both the default and the permissive set
+        if rng.random() < 0.2:
+            p["sc"] = dict(rng.choice([SC_LOOSE, SC_STRICT]))
         if rng.random() < 0.35:
             # any Hankel assembly method may be requested explicitly from either class
             p["method"] = rng.choice(["cov_R", "cov_mm", "dat"])
@@ -128,6 +135,10 @@ def gen_params(rng, cls, ndat_min, nch_min):
         p["ordmin"] = rng.choice([0, 0, 0, 1])
         if permissive:
             p["hc"] = {k: v for k, v in PERMISSIVE.items() if k != "cov_max"}
+        elif rng.random() < 0.4:
+            p["hc"] = {k: v for k, v in TIGHT.items() if k != "cov_max"}
+        if rng.random() < 0.2:
+            p["sc"] = dict(rng.choice([SC_LOOSE, SC_STRICT]))
     return p
 
 
@@ -374,6 +385,12 @@ class World:
         self.st = [AlgState(a) for a in w["algs"]]
         for st, alg in zip(self.st, self.algs):
             st.clean_params = copy.deepcopy(alg.run_params)
+        for i, a in enumerate(w["algs"]):
+            j = a.get("share_params_with")
+            if j is not None and j < i and getattr(self.algs[i], "run_params", None) is not None \
+                    and self.algs[i].run_params is self.algs[j].run_params:
+                # one parameter object handed to both: what the user wrote down for it are the values of the first
+                self.st[i].cur_params = copy.deepcopy(self.st[j].cur_params)
         self.order = [[] for _ in self.setups]  # per setup: algorithm indices in registration order (the model's own)
         self.refs = {}  # isolated-execution memo
         self.saved = {}  # path -> records {"snap", "states", "setup"} that may legitimately be read back
@@ -414,11 +431,20 @@ class World:
         # the parameters exactly as the user supplied them (constructor / set_run_params): whatever an mpe call, a run or
         # another algorithm sharing the same parameter object wrote into them since must not reach the reference
         params = self.st[ai].clean_params if self.st[ai].clean_params is not None else alg.run_params
-        key = (type(alg).__name__, h_obj(params), h_data(alg.data), repr(layout_sig(alg.data)), repr(alg.fs))
+        supplied = self.st[ai].cur_params if self.st[ai].has_params else None  # the plain values the user wrote down
+        key = (type(alg).__name__, h_obj(params), h_obj(supplied), h_data(alg.data), repr(layout_sig(alg.data)), repr(alg.fs))
         ent = self.refs.get(key)
         if ent is None:
             fresh = type(alg)(name="ref")
-            if params is not None:
+            if supplied is not None:
+                # built from the user's own values with the package in its pristine state: whatever constructing OTHER
+                # parameter objects did to shared class-level defaults must not reach the reference
+                tok = _S["guard"].enter()
+                try:
+                    fresh.set_run_params(type(alg).RunParamCls(**copy.deepcopy(supplied)))
+                finally:
+                    _S["guard"].exit(tok)
+            elif params is not None:
                 fresh.set_run_params(copy.deepcopy(params))
             bs = BaseSetup()
             bs.data, bs.fs = alg.data, alg.fs
